@@ -866,7 +866,7 @@ fn run_seq_inner(case: &SeqCase, cfg: &SeqCfg, run: &mut SeqRun) -> Result<(), V
         if cfg.sweep && op.modifies() {
             salt += 1;
             if (vsize as usize) <= cfg.sweep_limit || i % 8 == 7 || i + 1 == ops.len() {
-                let got = sweep(&world, &mut sched, &dev, vsize, params.bs(), cs, salt).map_err(|v| v.at(i))?;
+                let got = sweep(&world, &mut sched, &dev, vsize, params.bs(), cs, salt).map_err(|v| v.at(i).tag(format!("after:{}", op.kind())))?;
                 let readable = got.len() - got.len() % params.bs();
                 if let Some(v) = mismatch_violation(Rule::Frame, &run.model, 0, &got[..readable], &format!("sweep after {}", op.kind())) {
                     return Err(v.at(i).tag(format!("after:{}", op.kind())));
